@@ -105,6 +105,9 @@ def families(tier):
     fam['ng2_hist'] = (lambda: models_ngram2([0, 1], [0, 1, 2, ABSENT], [0, 1], [3, 4]), 'pairs')
     # histories on models with a length of level 2 (the length walk has to step over an empty level 1, also in a generator that loaded a session)
     fam['ng2_hist_ln2'] = (lambda: models_ngram2([0, 1], [0, 1, ABSENT], [0, 2], [3, 4]), 'pairs')
+    # four initial n-grams on ONE level, some of them without any continuation: positions inside a level's list of initial n-grams, saved as an index
+    # by a generator and read back by another one
+    fam['ng3_hist_ip4'] = (lambda: models_ngram3([(0, 0, 0, 0)], [0, 1, ABSENT], [{4: 0, 5: 1}]), 'pairs')
     if tier == 'thorough':
         fam['ng2_abc'] = (models_ngram2_abc, 'levels')
         fam['ng3'] = (lambda: models_ngram3([(0, 1, 1, ABSENT), (0, 0, 1, 2), (1, ABSENT, 0, 0)], [0, 1, ABSENT],
@@ -235,7 +238,8 @@ def explore_model(mods, m, mode, acc, counting=True, levels=None):
                         a = gen(L1, Optimizer(max_length=4))
                         part = [a.next_guess() for _ in range(j)]
                         a.save_session(spath)
-                        b = MarkovCracker(g, 1, Optimizer(max_length=4))
+                        # (on a grammar of its own: the process that resumes has loaded the ruleset anew; whatever the first generator did to its tables is gone)
+                        b = MarkovCracker(build(m), 1, Optimizer(max_length=4))
                         b.load_session(spath, {'pt': [['M', 0, 0]], 'prob': 0.5, 'level': 0})
                         rest = drain(b)
                         if counting:
